@@ -353,6 +353,10 @@ class Evaluator:
             v = self.eval(st.exc, env)
         if isinstance(v, ExcClass):
             v = ExcVal(v.name)
+        if isinstance(v, S.ClassRef):
+            from .classes import is_exception_class
+            if is_exception_class(v):
+                v = ExcVal(v.name)
         if not isinstance(v, ExcVal):
             raise Unsupported("raise of non-exception %r" % (v,))
         raise _Raise(v)
@@ -1392,6 +1396,13 @@ class Evaluator:
                 return NpFn(attr)
             if obj.name == "copy" and attr == "deepcopy":
                 return Builtin("deepcopy")
+            if obj.name.startswith("pandapipes"):
+                try:
+                    kind, ref = S.resolve_import_from(obj.name, attr)
+                    if kind in ("function", "class", "const"):
+                        return self.wrap_resolved(kind, ref)
+                except S.SourceError:
+                    pass
             return Opaque(obj.name + "." + attr)
         if isinstance(obj, Obj):
             if attr in obj.attrs:
